@@ -22,18 +22,6 @@ theorem run_perm_invariant (P : Prog) (fns' : List Fn) (hp : P.fns.Perm fns')
     run fuel { P with fns := fns' } entry eager = run fuel P entry eager :=
   run_perm P fns' hp hd fuel entry eager
 
-/-- **names of bound variables are irrelevant**: renaming every function of a program by its own
-    renaming `σs f` does not change `Sem.run`, provided each renaming is injective on the names its
-    function mentions (`Ns f`), every variable it moves is bound by a `let` inside the body (so it
-    is neither a parameter, nor a global, nor a builtin), and — this is the `_partial` — no function
-    body contains a closure expression (a closure value carries its body and its environment, so
-    the two runs would produce different, merely equivalent, values; that needs a relation on values
-    instead of the equality used here).  All hypotheses are decidable. -/
-theorem run_alpha_invariant_partial (P : Prog) (σs : String → String → String) (Ns : String → List String)
-    (H : Hyp σs Ns P) (fuel : Nat) (entry : String) (eager : Bool) :
-    run fuel (renP σs P) entry eager = run fuel P entry eager :=
-  run_alpha H fuel entry eager
-
 /-- **names of bound variables are irrelevant, closures included**: renaming every function of a program by its
     own renaming `σs f` does not change `Sem.run` — stdout, the way of ending and the extern events are EQUAL —
     provided each renaming is injective on the names its function mentions (`Ns f`), every variable it moves is
@@ -47,6 +35,13 @@ theorem run_alpha_invariant (P : Prog) (σs : String → String → String) (Ns 
     (H : HypC σs Ns P) (fuel : Nat) (entry : String) (eager : Bool) :
     run fuel (renP σs P) entry eager = run fuel P entry eager :=
   run_alpha_full H fuel entry eager
+
+/-- the round-1 statement (closure-free programs, `Hyp`), kept as a corollary of `run_alpha_invariant`:
+    on a closure-free body the scope check `scE` implies `scC` (`scC_of_cf`), so `Hyp` implies `HypC` -/
+theorem run_alpha_invariant_partial (P : Prog) (σs : String → String → String) (Ns : String → List String)
+    (H : Hyp σs Ns P) (fuel : Nat) (entry : String) (eager : Bool) :
+    run fuel (renP σs P) entry eager = run fuel P entry eager :=
+  run_alpha_invariant P σs Ns (hyp_hypC H) fuel entry eager
 
 /-- **verified validator**: if `validate σs Ns S W` accepts — every function of `S` has a twin in `W`
     that is its `σs`-renaming (type annotations aside; closure expressions included), `W` has no other function,
